@@ -380,7 +380,7 @@ def descriptor_cases(out, ck):
 def run(tier, seed, out, drv, facts):
     rng = Rng(seed, "C07")
     thorough = tier == "thorough"
-    n = 4000 if thorough else 250
+    n = 30000 if thorough else 250
     for ck in CHECKERS:
         descriptor_cases(out, ck)
     for i in range(n):
